@@ -153,6 +153,14 @@ def lower_body(body, cls=None, methods=(), members=(), objs=None, ptr_objs=None,
                     return 'IMS_read_obj(%s%s, &(%s), sizeof(%s))' % (addr, v, a[0], a[0])
                 if cname is None and c == 'IMS' and name == 'read' and not targ and len(a) == 2:
                     return 'IMS_read_buf(%s%s, %s, %s)' % (addr, v, a[0], a[1])
+                if cname is None and c == 'OMS' and name == 'write' and not targ and len(a) == 1:
+                    if re.match(r'^[\w.>\-\[\]]+$', a[0].replace('this->', 'this_')):      # an lvalue: write(const T&) copies the object
+                        return 'OMS_write_obj(%s%s, &(%s), sizeof(%s))' % (addr, v, a[0], a[0])
+                    return 'OMS_write_val(%s%s, %s)' % (addr, v, a[0])
+                if cname is None and c == 'OMS' and name == 'write' and not targ and len(a) == 2:
+                    if '.end()' in a[1] or '_end' in a[1]:
+                        return 'OMS_write_range(%s%s, %s, %s)' % (addr, v, a[0], a[1])
+                    return 'OMS_write_buf(%s%s, %s, %s)' % (addr, v, a[0], a[1])
                 if cname is None and c == 'IMS' and name == 'size' and len(a) == 1:
                     return 'IMS_size_set(%s%s, %s)' % (addr, v, a[0])
                 if cname is None:
